@@ -8,7 +8,7 @@ from props import _e_util as U
 
 THEOREMS = ["C05.paths_insert", "C05.insert_keeps_ids", "C05.insert_returns", "C05.different_root_refused",
             "C05.strip_invariant", "C05.sep_invariant", "C05.no_dup_mode", "C05.attrs_exact", "C05.new_node_attrs",
-            "C05.nulls_dropped_in_rows", "C05.children_first_appearance", "C05.fold_exact", "C05.dict_to_tree_exact",
+            "C05.nulls_dropped_in_rows", "C05.children_first_appearance", "C05.branchOf_written", "C05.fold_exact", "C05.dict_to_tree_exact",
             "C05.rows_to_tree_exact"]
 PROOF_IMPORTS = ["BigtreeProofs.Properties.C05"]
 FNS = ["addpath", "adddict", "addpd", "addpl", "list", "dict", "pd", "pl"]
@@ -599,7 +599,7 @@ LEVEL_TEXT = ("proof: Lean 4 kernel-checked theorems about the executable model 
               "duplicate settings: node set = prefix closure, each path once, children of every node a sublist of the "
               "first-appearance list)")
 LEVEL_NOTE = ("the per-call theorems are stated for duplicate_name_allowed=True and transferred to False by no_dup_mode; "
-              "children_first_appearance assumes pairwise different path strings (list_to_tree removes exact repeats first); "
+              "children_first_appearance covers any list of well-formed path strings (repeats, any order, any spelling); "
               "fold_exact (add_*_by_path from any sibling-unique tree), dict_to_tree_exact and rows_to_tree_exact give node "
               "set, no duplicates and child order for the other constructors; per-node attributes of the folds, "
               "root-attribute lookup, null dropping through pandas/polars and the duplicate-attribute refusal rest on the "
